@@ -147,10 +147,11 @@ CHECKS = {
             'in characters; sign is the strongest class all values share (none when mixed); max_nulls present iff the '
             'null count is < 2 and equals it; no_duplicates iff string/int field with > 1 non-null values all distinct; '
             'allowed_values iff 1..20 distinct strings and equals their sorted list; only the type for absent data. '
-            'Tied to the code by running discover_df and the pandas aggregates against the model on generated '
-            'columns of every family; statistics are also recomputed from the cells as the oracle.',
+            'Tied to the code by running discover_df and the pandas aggregates, and discover_db_table on generated SQLite '
+            'tables, against the model on generated columns of every family; statistics are also recomputed from the cells '
+            'as the oracle for both back ends.',
             'Trusted: Lean kernel; pandas aggregates (tied by cx.calc); rexpy output replaced by indices. Two known '
-            'findings (no_duplicates for bool / date fields). SQLite discovery is exercised by the C08 check.',
+            'findings (no_duplicates for bool / date fields). SQLite tables are discovered through discover_db_table in this check too (same model, same clause-by-clause oracle).',
             'DESIGN.md 4 C07'),
     'C09': ('Lean 4 theorems over a dictionary-level model of to_dict / initialize_from_dict + correspondence',
             'Kernel-checked theorems: str(datetime) is re-read as the same datetime by get_date (with and without '
@@ -254,6 +255,23 @@ NOT_BUILT = 'check not built yet in this round (see DESIGN.md section 4 for the 
 ALL = ['C%02d' % i for i in range(1, 20)]
 
 
+def findings_note(pid):
+    import re
+    kf = json.load(open(os.path.join(VERIF, 'known_findings.json')))
+    kf = kf['findings'] if isinstance(kf, dict) else kf
+    known = [f['key'] for f in kf if f['property'] == pid and f['status'] == 'known']
+    fixed = [f for f in kf if f['property'] == pid and f['status'] == 'fixed']
+    if known:
+        return ' Open findings (KNOWN-FINDING lines, known_findings.json): %s. Fixed in /repo: %d.' % ('; '.join(known), len(fixed))
+    return ' No open findings. Fixed in /repo: %d.' % len(fixed)
+
+
+def strip_findings(note):
+    import re
+    note = re.sub(r'\s*No open findings[^.]*\.', '', note)
+    return re.sub(r'\s*(One|Two|Three|Four|Five|Six|\d+) [^.]*finding[^.]*\.(\s*(One|Two|Three|Four|Five|\w+) fixed\.)?', '', note).rstrip()
+
+
 def main():
     checks = []
     for pid in ALL:
@@ -268,7 +286,7 @@ def main():
             'replay_cmd_template': '%s %s --replay {path}' % (PY, pid),
             'engine': 'lean4-model+correspondence',
             'level_claimed': {'category': 'proof', 'text': text, 'design_ref': ref},
-            'level_note': note,
+            'level_note': strip_findings(note) + findings_note(pid),
             'technique': tech,
         })
     na = [{'property_id': pid, 'reason': NOT_BUILT} for pid in ALL if pid not in CHECKS]
